@@ -62,7 +62,7 @@ CLAIMS.update({
 
 CLAIMS.update({
  "C01": ("agreement analysis between type_info and resolve of every `impl Expression` (child-set comparison, effect pairing via P-EFFECT, taint through join functions, per-variant table) + abstract interpretation of Op::type_info's MIR over a finite kind domain (P-ABS) compared with the operators' result variants (P-VAR)",
-         "R01a state threading, R01b mutator<->type-effect pairing, R01c join discipline (Details::merge), R01d literal base cases, R01e operator result kinds contain every variant the operator can return, R01f state versions: the returned TypeState of Op/If/Not/Group/Return contains every always-evaluated child and no conditionally evaluated one (found and repaired: `x = 10 / (b = 2)`). Necessary conditions of type "
+         "R01a state threading, R01b mutator<->type-effect pairing, R01c join discipline (Details::merge), R01d literal base cases, R01e operator result kinds contain every variant the operator can return, R01f state versions: the returned TypeState of Op/If/Not/Group/Return contains every always-evaluated child and no conditionally evaluated one (found and repaired: `x = 10 / (b = 2)`), R01g branch isolation in compile_if_statement. Necessary conditions of type "
          "soundness; found LocalEnv::merge, Return::type_info and del-on-local defects (fixed).", "§4 C01"),
  "C08": ("P-VAR over Op::resolve and Variant::resolve with provenance classification of stored values; table agreement of DefaultValue",
          "R08a-d: `??` evaluates rhs only on Err and returns Ok(lhs) unchanged; the four (outcome,target) stores of `ok, err =` and its result carry the defined "
@@ -106,7 +106,7 @@ CLAIMS.update({
 CLAIMS.update({
  "C02": ("F-MAP classification of always-infallible functions + P-VAR reachability of message-error constructions under the declared parameter kinds; flag-pairing dominance; abstract interpretation of Op::type_info's MIR (P-ABS) against the error-capable variant pairs of each VrlValueArithmetic method (P-VAR)",
          "R02a: a function that is always typed infallible has no reachable message-error construction in resolve (4 genuine findings recorded); "
-         "R02c: abortable/fallible program flags are set where their cause is compiled; R02d: an operator typed infallible for operand kinds (K1, K2) has no variant pair inside K1 x K2 that reaches a type/zero error in its method; R02e: a fallible operand that is always evaluated makes the operation fallible (found and repaired: `to_int(.x) / 2`). Not the compiler's whole fallibility calculus.", "§4 C02"),
+         "R02c: abortable/fallible program flags are set where their cause is compiled; R02d: an operator typed infallible for operand kinds (K1, K2) has no variant pair inside K1 x K2 that reaches a type/zero error in its method; R02e: a fallible operand that is always evaluated makes the operation fallible (found and repaired: `to_int(.x) / 2`), also for Not/Group/Query; R01g (shared with C01) branch isolation while compiling if/else. Not the compiler's whole fallibility calculus.", "§4 C02"),
 })
 
 NA = {}
